@@ -263,15 +263,17 @@ TRUSTED = [
     "expat/lxml tokenisers and writers only through the end-to-end op bind.roundtrip",
 ]
 ASSUMPTIONS = []
-LEVEL_TEXT = "proof (fragment F1) + correspondence"
-LEVEL_NOTE = (
-    "bind_generate_F1 (Props/C01.lean): generate -> abstract writer -> parseRoot is the identity, with no converter warning, "
-    "for every universe with ctxF1 (attributes, primitive/model-typed elements optional/required/list, a text var, class and "
-    "field namespaces) and every instance with valF1, for both settings of ignore_default_attributes, all parser configs and "
-    "every Unicode Env; the excluded regions have machine-checked witnesses replayed on the real code."
+LEVEL_TEXT = (
+    "Partial. bind_generate_F1 (Props/C01.lean): generate -> abstract writer -> parseRoot is the identity, with no converter "
+    "warning, for every universe with ctxF1 (attributes, primitive- and model-typed elements optional/required/list, a text var, "
+    "class and field namespaces) and every instance with valF1, for both settings of ignore_default_attributes, all parser "
+    "configs and every Unicode Env; the excluded regions have machine-checked witnesses replayed on the real code. Outside "
+    "fragment F1 (wildcards, mixed, anyType, nillable, tokens, wrapper, sequence, compound fields, Attributes, xsi:type/"
+    "inheritance, unions, init=False, QName values) the executable model is compared with the real generator, parser and the "
+    "four writer x handler combinations, but no round-trip theorem is claimed yet."
 )
-NOT_CLAIMED = (
-    "outside fragment F1 (wildcards, mixed, anyType, nillable, tokens, wrapper, sequence, compound fields, Attributes, "
-    "xsi:type/inheritance, unions, init=False, QName values) only the correspondence is checked; the concrete writers "
-    "(prefix bookkeeping, escaping, indentation) are the subject of C03"
+LEVEL_NOTE = (
+    "Trusted: Lean kernel; metadata exported from the real XmlContext.build is input of the model (builders.py not modelled); "
+    "the concrete writers (prefix bookkeeping, escaping, indentation) are the subject of C03/C08 and enter here only through the "
+    "correspondence op bind.roundtrip; expat/lxml tokenisers."
 )
